@@ -275,3 +275,68 @@ def check_operators(repo: Repo, where: str, tier: str) -> tuple[dict, list[tuple
                     seen.setdefault(cat, detail)
                 results.append((sk.construct.replace(".generate", ".parse/generate"), sk.label(), n, sorted(seen.items())))
     return units, results
+
+
+def check_ctx_managers(repo: Repo, where: str) -> tuple[int, list[tuple[str, str]]]:
+    """CTX-MODEL: E2 (sa/flow.py) models ParserState's context managers by name - atomic_checkpoint saves the atomic
+    depth and the pair-visibility flag and puts both back, suppress_failures switches failure recording off and on
+    again, tag pushes a tag and removes it if it is still there.  Here the managers are evaluated from their
+    syntax trees on a model ParserState, for every combination of entry values and of what the body does, and
+    compared with that model."""
+    cm = program(repo, where)
+    bad: list[tuple[str, str]] = []
+    n = 0
+    has_hide = "hide_pairs" in ast.unparse(cm.classes["ParserState"])
+
+    def run(src: str, state: Obj) -> None:
+        env = dict(cm.env)
+        env["state"] = state
+        Ev(env, where, cm, 20000).run(ast.parse(src).body)
+
+    for depth0 in (0, 2):
+        for hide0 in ((False, True) if has_hide else (False,)):
+            for body in ("state.atomic_depth += 1", "state.atomic_depth.zero()", "pass"):
+                for hide_w in ((None, True, False) if has_hide else (None,)):
+                    n += 1
+                    st, _ = fresh_state(cm, (), None, [])
+                    for _ in range(depth0):
+                        run("state.atomic_depth += 1", st)
+                    if has_hide:
+                        st.hide_pairs = hide0
+                    src = "with state.atomic_checkpoint():\n    " + body + ("\n    state.hide_pairs = " + repr(hide_w) if hide_w is not None else "") + "\n    INSIDE = (state.atomic_depth > 0, getattr_hide)\n".replace("getattr_hide", "state.hide_pairs" if has_hide else "False")
+                    desc = f"atomic depth {depth0}, hide_pairs {hide0}; body: {body}" + (f"; hide_pairs = {hide_w}" if hide_w is not None else "")
+                    try:
+                        run(src, st)
+                    except ModelRaise as err:
+                        bad.append(("atomic_checkpoint raises", f"{desc}: {err}"))
+                        continue
+                    got = (st.atomic_depth.__dict__.get("_value"), st.__dict__.get("hide_pairs", False), len(st.atomic_depth.__dict__.get("_snapshots", st.atomic_depth.__dict__.get("_stack", []))))
+                    if got[0] != depth0:
+                        bad.append(("atomic_checkpoint does not put the atomic depth back", f"{desc}: depth {got[0]} afterwards"))
+                    if has_hide and got[1] != hide0:
+                        bad.append(("atomic_checkpoint does not put pair visibility back", f"{desc}: hide_pairs {got[1]} afterwards"))
+    for before in (False,):
+        n += 1
+        st, _ = fresh_state(cm, (), None, [])
+        try:
+            env = dict(cm.env)
+            env["state"] = st
+            ev = Ev(env, where, cm, 20000)
+            ev.run(ast.parse("with state.suppress_failures():\n    INSIDE = state._suppress_failures\nAFTER = state._suppress_failures").body)
+            if env.get("INSIDE") is not True or env.get("AFTER") is not False:
+                bad.append(("suppress_failures does not switch failure recording off inside and on again after", f"inside {env.get('INSIDE')}, after {env.get('AFTER')}"))
+        except ModelRaise as err:
+            bad.append(("suppress_failures raises", str(err)))
+    for consumed in (False, True):
+        n += 1
+        st, _ = fresh_state(cm, (), None, [])
+        try:
+            env = dict(cm.env)
+            env["state"] = st
+            ev = Ev(env, where, cm, 20000)
+            ev.run(ast.parse("with state.tag('t'):\n    INSIDE = list(state.tag_stack)\n" + ("    state.tag_stack.pop()\n" if consumed else "") + "AFTER = list(state.tag_stack)").body)
+            if env.get("INSIDE") != ["t"] or env.get("AFTER") != []:
+                bad.append(("tag() does not push its tag for the body and leave the tag stack as it found it", f"consumed inside: {consumed}; inside {env.get('INSIDE')}, after {env.get('AFTER')}"))
+        except ModelRaise as err:
+            bad.append(("tag() raises", f"consumed inside: {consumed}: {err}"))
+    return n, bad
